@@ -325,7 +325,7 @@ pub fn run(ctx: &Ctx) {
     centers.push(i128::MAX);
     centers.sort();
     centers.dedup();
-    let w: i128 = ctx.tier.pick(1 << 13, 1 << 17);
+    let w: i128 = ctx.tier.pick(1 << 15, 1 << 17);
     let per_center = (2 * w + 1) as u64;
     let total = centers.len() as u64 * per_center * INT_TYPES.len() as u64;
     let decode = |i: u64| -> (&'static str, i128) {
